@@ -178,7 +178,7 @@ fn alloc_slice(col_sizes: Vec<SizeEstimate>, width_in: usize, raw: bool) -> (r: 
     ensures //@w
         r.0@.len() == col_sizes@.len(), //@w
         // the side-by-side / stacked decision (C05, C06): stacked iff raw mode, or the minimum widths plus separators do not fit //@w
-        r.1 == (raw || width_in == 0 || ssum(mins(col_sizes@)) + (if col_sizes@.len() > 0 { col_sizes@.len() - 1 } else { 0 }) > width_in), //@w @C05 @C06 #vertical_decision
+        r.1 == (raw || width_in == 0 || ssum(mins(col_sizes@)) + (if col_sizes@.len() > 0 { col_sizes@.len() - 1 } else { 0 }) > width_in), //@w @C05 @C06 @C11 #vertical_decision
         // stacked: every cell gets the full width //@w
         r.1 ==> forall|i: int| 0 <= i < r.0@.len() ==> #[trigger] r.0@[i] == width_in, //@w @C05 @C02 #stacked_full_width
         // side by side: column widths plus one separator between columns never exceed the width given to the table //@w
